@@ -79,6 +79,13 @@ def gen(ctx, deep):
             hists.append(pc.interleave_reads(h, reads))
         shape = pc.Shape("prio/enforcer", pc.PRIO, "p", "p", UNIVERSE, pi=0, pt=0, initial=init)
         shapes_hists.append((shape, hists))
+        if len(init) >= 2 and (deep or rng.random() < 0.15):
+            # the same histories on the SECOND policy definition of a model whose first one has no priority field
+            def p2(o):
+                return (o[0], "p", "p2") + tuple(o[3:])
+
+            shape2 = pc.Shape("prio2/enforcer", pc.PRIO2, "p", "p2", UNIVERSE, pi=0, pt=0, initial=init)
+            shapes_hists.append((shape2, [[p2(o) for o in h] for h in hists[:: 1 if deep else 3]]))
     return shapes_hists
 
 
